@@ -128,6 +128,79 @@ def lock_windows(dud, base, R):
     return viol
 
 
+def bool_flags(dud, env, sub):
+    """the boolean flags `dud <sub> --help` advertises (own and global), whatever they are in this tree"""
+    import re
+    p = subprocess.run([dud] + sub + ["--help"], env=env, stdout=subprocess.PIPE, stderr=subprocess.STDOUT)
+    out = []
+    for line in ROOT_WARNING.sub(b"", p.stdout).decode(errors="replace").splitlines():
+        m = re.match(r"^\s+(?:-\w, )?(--[a-z][-a-z0-9]*)(\s+\S+)?\s{2,}", line)
+        if m and m.group(1) != "--help" and not (m.group(2) or "").strip():
+            out.append(m.group(1))
+    return sorted(set(out))
+
+
+def flag_sweep(dud, base, R):
+    """every lock-taking subcommand with every boolean flag its help text lists, in an up-to-date and in a modified project, from the root
+    and from a sub-directory: whatever the flag makes the command report or return, the project is unlocked afterwards"""
+    viol = []
+    k = 0
+    for sub in (["status"], ["commit"], ["checkout"], ["run"], ["graph"], ["push"], ["fetch"], ["pull"]):
+        root0, env = mkproject(dud, base, "fl-help-%s" % sub[0])
+        flags = bool_flags(dud, env, sub)
+        for fl in flags:
+            for state in ("clean", "modified"):
+                k += 1
+                root, env = mkproject(dud, base, "fl%d" % k)
+                open(os.path.join(root, "s.yaml"), "w").write("command: echo hi > out.txt\ninputs:\n  in.txt: {}\noutputs:\n  out.txt: {}\n")
+                open(os.path.join(root, "in.txt"), "w").write("in")
+                q = dict(cwd=root, env=env, stdout=subprocess.DEVNULL, stderr=subprocess.DEVNULL)
+                for c in (["stage", "add", "s.yaml"], ["run"], ["commit"], ["push"]):
+                    subprocess.run([dud] + c, **q)
+                if state == "modified":
+                    os.unlink(os.path.join(root, "out.txt"))
+                    open(os.path.join(root, "out.txt"), "w").write("edited by hand")
+                    open(os.path.join(root, "in.txt"), "w").write("changed input")
+                cwd = root if k % 2 else os.path.join(root, "sub", "dir")
+                for d_ in (root, cwd):
+                    for nm in ("dud.pprof", "dud.trace"):
+                        pass
+                p = subprocess.run([dud] + sub + [fl], cwd=cwd, env=env, stdout=subprocess.PIPE, stderr=subprocess.PIPE, timeout=60)
+                left = os.path.exists(os.path.join(root, ".dud", "lock"))
+                R.count("flag-%s-%s-%s" % (sub[0], fl, state), True)
+                if left:
+                    viol.append(("lock-left:flag", "`dud %s %s` in a %s project (from %s) exited %d and left .dud/lock behind: %s" % (
+                        sub[0], fl, state, "the root" if cwd == root else "a sub-directory", p.returncode, p.stderr.decode(errors="replace")[-120:])))
+    return viol
+
+
+def nested_invocation(dud, base, R):
+    """a stage command that itself starts dud in the same project: the running `dud run` holds the lock, so the nested dud is one of
+    "the others": it exits non-zero without changing anything and without removing the holder's lock"""
+    viol = []
+    for k, inner in enumerate((["status"], ["commit"], ["run", "b.yaml"], ["checkout"])):
+        root, env = mkproject(dud, base, "nest%d" % k)
+        cmd = "%s %s > NESTED_OUT 2>&1; echo $? > NESTED_RC; test -e .dud/lock && echo held > LOCK_SEEN; echo x > out.txt" % (dud, " ".join(inner))
+        open(os.path.join(root, "a.yaml"), "w").write("command: %s\noutputs:\n  out.txt: {}\n" % json.dumps(cmd))
+        open(os.path.join(root, "b.yaml"), "w").write("command: echo b > b.txt\noutputs:\n  b.txt: {}\n")
+        q = dict(cwd=root, env=env, stdout=subprocess.DEVNULL, stderr=subprocess.DEVNULL)
+        subprocess.run([dud, "stage", "add", "a.yaml", "b.yaml"], **q)
+        p = subprocess.run([dud, "run", "a.yaml"], cwd=root, env=env, stdout=subprocess.PIPE, stderr=subprocess.PIPE, timeout=60)
+        R.count("nested-%s" % inner[0], True)
+        rcf = os.path.join(root, "NESTED_RC")
+        rc = open(rcf).read().strip() if os.path.exists(rcf) else "?"
+        if rc == "0":
+            viol.append(("nested-passed", "a `dud %s` started by the stage command of a running `dud run` in the same project exited 0: it got past the "
+                         "lock its parent holds (output: %s)" % (" ".join(inner), open(os.path.join(root, "NESTED_OUT"), errors="replace").read()[-160:])))
+        if not os.path.exists(os.path.join(root, "LOCK_SEEN")) and rc != "?":
+            viol.append(("holder-lock-removed", "after the refused nested `dud %s` the lock of the running `dud run` was gone" % " ".join(inner)))
+        if os.path.exists(os.path.join(root, ".dud", "lock")):
+            viol.append(("lock-left:nested", "`dud run` whose stage command started a nested dud left .dud/lock behind (exit %d)" % p.returncode))
+        if inner[0] == "run" and os.path.exists(os.path.join(root, "b.txt")):
+            viol.append(("nested-changed", "the refused nested `dud run b.yaml` executed stage b"))
+    return viol
+
+
 def matrix(dud, drv, base, R):
     """every subcommand x {root, nested dir} x {success, failure}: the lock must be gone afterwards"""
     prelock_n = [0]
@@ -256,7 +329,7 @@ def main(tier, replay=None):
             if v:
                 R.violation(dict(kind="property-violated-on-implementation", scenario="%d concurrent invocations" % n, violations=v, detail=info))
     viol, diverged = matrix(dud, drv, base, R)
-    viol = viol + lock_windows(dud, base, R)
+    viol = viol + lock_windows(dud, base, R) + flag_sweep(dud, base, R) + nested_invocation(dud, base, R)
     unknown = []
     for tag, text in viol:
         kf = None
